@@ -144,6 +144,7 @@ def Call.stmtLevel : Call → Bool
   | .stmts _ | .stmt _ | .setAttr .. | .setPlain .. | .setSlot .. | .update _ | .trigger _ => true
   | _ => false
 
+set_option maxHeartbeats 800000 in
 /-- With the batching flag off: a flush empties the queues from any state, and a
 statement-level call that starts with empty queues ends with empty queues — for every
 outcome, raised ones included. -/
